@@ -187,7 +187,7 @@ def walk_own(fnode):
             stack.append(ch)
 
 
-def inline_temporaries(fnode, expr, depth=4, keep=(), inline_calls=False):
+def inline_temporaries(fnode, expr, depth=4, keep=(), inline_calls=False, inline_consts=False):
     """copy of `expr` in which every name that the function assigns exactly once (plain
     `name = <expression>`, no augmented assignment, not a loop/with/except target, not a
     parameter) is replaced by its defining expression, recursively.  Lets an expression-shaped
@@ -202,7 +202,7 @@ def inline_temporaries(fnode, expr, depth=4, keep=(), inline_calls=False):
         if isinstance(n, ast.Assign):
             for t in n.targets:
                 for x in ast.walk(t):
-                    if isinstance(x, ast.Name):
+                    if isinstance(x, ast.Name) and isinstance(x.ctx, ast.Store):
                         counts[x.id] = counts.get(x.id, 0) + 1
                         if len(n.targets) == 1 and isinstance(t, ast.Name):
                             defs[x.id] = n.value
@@ -227,6 +227,23 @@ def inline_temporaries(fnode, expr, depth=4, keep=(), inline_calls=False):
                 if isinstance(x, ast.Name):
                     counts[x.id] = counts.get(x.id, 0) + 2
     skip = (ast.Lambda, ast.ListComp, ast.GeneratorExp, ast.Constant) if inline_calls else (ast.Call, ast.Lambda, ast.ListComp, ast.GeneratorExp, ast.Constant)
+    # a local that is filled or modified after its one assignment (xs = []; xs.append(..);
+    # d = {}; d[k] = v) is not a name for its initial value
+    mutated = set()
+    for n in walk_own(fnode):
+        if isinstance(n, ast.Call) and isinstance(n.func, ast.Attribute) and isinstance(n.func.value, ast.Name) \
+                and n.func.attr in ("append", "extend", "insert", "update", "add", "pop", "remove", "clear", "sort", "reverse", "setdefault"):
+            mutated.add(n.func.value.id)
+        elif isinstance(n, (ast.Assign, ast.AugAssign)):
+            for t in (n.targets if isinstance(n, ast.Assign) else [n.target]):
+                for x in ast.walk(t):
+                    if isinstance(x, ast.Subscript) and isinstance(x.ctx, ast.Store) and isinstance(x.value, ast.Name):
+                        mutated.add(x.value.id)
+    for k in mutated:
+        if isinstance(defs.get(k), (ast.List, ast.Dict, ast.Set, ast.ListComp, ast.DictComp)) or (isinstance(defs.get(k), ast.Call) and dotted(defs[k].func) in ("list", "dict", "set")):
+            counts[k] = counts.get(k, 0) + 2
+    if inline_consts:
+        skip = tuple(t for t in skip if t is not ast.Constant)
     single = {k: v for k, v in defs.items() if counts.get(k) == 1 and k not in params and k not in keep and not isinstance(v, skip)}
 
     class Sub(ast.NodeTransformer):
@@ -239,6 +256,21 @@ def inline_temporaries(fnode, expr, depth=4, keep=(), inline_calls=False):
             return node
 
     return ast.fix_missing_locations(Sub(depth).visit(copy.deepcopy(expr)))
+
+
+def single_def(fnode, name):
+    """the expression of the one plain assignment `name = <expr>` in the function when the name
+    is bound nowhere else (not a parameter, loop/with target, augmented or unpacked); else None"""
+    if name in {a.arg for a in fnode.args.posonlyargs + fnode.args.args + fnode.args.kwonlyargs}:
+        return None
+    binds, value = 0, None
+    for n in walk_own(fnode):
+        for x in ast.walk(n) if isinstance(n, (ast.Assign, ast.AugAssign, ast.AnnAssign, ast.For, ast.comprehension, ast.withitem, ast.NamedExpr)) else ():
+            if isinstance(x, ast.Name) and x.id == name and isinstance(x.ctx, ast.Store):
+                binds += 1
+        if isinstance(n, ast.Assign) and len(n.targets) == 1 and isinstance(n.targets[0], ast.Name) and n.targets[0].id == name:
+            value = n.value
+    return value if binds == 1 else None
 
 
 def walk_all(node):
@@ -403,6 +435,83 @@ class _ControlShape(ast.NodeTransformer):
         return node
 
 
+def _loops_to_comprehensions(tree):
+    """`xs = []` ... `for T in IT: xs.append(E)`  ->  `xs = [E for T in IT]` (several lists filled by
+    one loop become several comprehensions over the same iterable; xs may be a name or an
+    attribute chain such as self.contours).  Applied only when the loop body consists of such
+    appends and nothing else, the lists are fresh (`= []` earlier in the same block, not mentioned
+    in between) and neither E nor IT mentions them.  For reading, not for running: an iterable
+    that can be consumed only once would make the rewritten program differ, the facts the rules
+    read off it (what each element is, in which order) do not."""
+    import copy
+
+    def key_of(n):
+        parts = []
+        while isinstance(n, ast.Attribute):
+            parts.append(n.attr)
+            n = n.value
+        if isinstance(n, ast.Name):
+            parts.append(n.id)
+            return ".".join(reversed(parts))
+        return None
+
+    def mentions(node, keys):
+        for x in ast.walk(node):
+            if isinstance(x, (ast.Name, ast.Attribute)) and key_of(x) in keys:
+                return True
+        return False
+
+    def rewrite(block):
+        changed = True
+        while changed:
+            changed = False
+            for k, s in enumerate(block):
+                if not (isinstance(s, ast.For) and not s.orelse and s.body):
+                    continue
+                apps = []
+                for b in s.body:
+                    c = b.value if isinstance(b, ast.Expr) else None
+                    if isinstance(c, ast.Call) and isinstance(c.func, ast.Attribute) and c.func.attr == "append" and key_of(c.func.value) is not None \
+                            and len(c.args) == 1 and not c.keywords and not isinstance(c.args[0], ast.Starred):
+                        apps.append((key_of(c.func.value), c.func.value, c.args[0]))
+                    else:
+                        apps = None
+                        break
+                if not apps or len({n for n, t, e in apps}) != len(apps):
+                    continue
+                lists = {n for n, t, e in apps}
+                if any(mentions(e, lists) for n, t, e in apps) or mentions(s.iter, lists) or mentions(s.target, lists):
+                    continue
+                inits = {}
+                ok = True
+                for n in lists:
+                    pos = [i for i in range(k) if isinstance(block[i], ast.Assign) and len(block[i].targets) == 1 and key_of(block[i].targets[0]) == n
+                           and isinstance(block[i].value, ast.List) and not block[i].value.elts]
+                    if not pos or any(mentions(block[i], {n}) for i in range(pos[-1] + 1, k)):
+                        ok = False
+                        break
+                    inits[n] = pos[-1]
+                if not ok:
+                    continue
+                new = []
+                for n, tnode, e in apps:
+                    comp = ast.ListComp(elt=e, generators=[ast.comprehension(target=copy.deepcopy(s.target), iter=copy.deepcopy(s.iter), ifs=[], is_async=0)])
+                    tgt = copy.deepcopy(tnode)
+                    tgt.ctx = ast.Store()
+                    new.append(ast.copy_location(ast.Assign(targets=[tgt], value=comp, type_comment=None), s))
+                drop = set(inits.values())
+                block[:] = [b for i, b in enumerate(block[:k]) if i not in drop] + new + block[k + 1:]
+                changed = True
+                break
+
+    for node in ast.walk(tree):
+        for fld in ("body", "orelse", "finalbody"):
+            b = getattr(node, fld, None)
+            if isinstance(b, list) and b and isinstance(b[0], ast.stmt):
+                rewrite(b)
+    return tree
+
+
 def normalise_tree(tree):
     aliases = {}
     for n in ast.walk(tree):
@@ -418,6 +527,8 @@ def normalise_tree(tree):
             tree = _inline_attribute_aliases(tree)
     if not os.environ.get("HV_NO_CONTROL_SHAPE"):
         tree = _ControlShape().visit(tree)
+    if not os.environ.get("HV_NO_LOOPCOMP"):
+        tree = _loops_to_comprehensions(tree)
     return ast.fix_missing_locations(tree)
 
 
